@@ -8,7 +8,7 @@ from sa.astx import call_name, dotted, src, walk_local
 from sa.effects import accesses, class_accesses
 from sa.selftest import Mutant, Silent
 from sa.source import methods
-from sa.props._lib_b import (MiniBudget, MiniEval, MiniRaise, check_delayed_call, public_api_effects, lin_cmp, lin_cmp_text, lin_eq, linform, model_class)
+from sa.props._lib_b import (MiniBudget, MiniEval, MiniRaise, check_delayed_call, public_api_effects, lin_cmp, lin_cmp_text, lin_eq, linform, model_class, resolve_locals, Unsupported, clone, _Subst, single_assignment_locals)
 
 PROPERTY = "C09"
 TASK = "internet/task.py"
@@ -46,13 +46,70 @@ def _is_sort_call(x, sorters):
     return isinstance(x.func, ast.Attribute) and x.func.attr == "sort" and _self_attr(x.func.value, "calls")
 
 
+def _kind(a):
+    """Operation kind of an access to `calls`, with two spellings normalised: `del self.calls[0]` takes the first element,
+    `self.calls[:] = sorted(self.calls, ...)` sorts in place."""
+    n = a.node
+    if a.kind == "delitem" and isinstance(n, ast.Delete) and any(isinstance(t, ast.Subscript) and isinstance(t.slice, ast.Constant) and t.slice.value == 0 for t in n.targets):
+        return "pop_first"
+    if a.kind == "setitem" and isinstance(n, ast.Assign) and len(n.targets) == 1 and isinstance(n.targets[0], ast.Subscript) \
+            and isinstance(n.targets[0].slice, ast.Slice) and not (n.targets[0].slice.lower or n.targets[0].slice.upper or n.targets[0].slice.step) \
+            and isinstance(n.value, ast.Call) and dotted(n.value.func) == "sorted" and n.value.args and _self_attr(n.value.args[0], "calls"):
+        return "sort"
+    return a.kind
+
+
+def _predicate_body(ms, e):
+    """`self.helper()` whose body is a single `return <expr>` -> that expression (a private predicate read as if inlined)."""
+    if isinstance(e, ast.Call) and not e.args and not e.keywords and (call_name(e) or "").startswith("self.") and call_name(e).count(".") == 1:
+        h = ms.get(call_name(e)[5:])
+        if h is not None and len(h.args.args) == 1:
+            body = [st for st in h.body if not (isinstance(st, ast.Expr) and isinstance(st.value, ast.Constant))]
+            if len(body) == 1 and isinstance(body[0], ast.Return) and body[0].value is not None:
+                return body[0].value
+    return None
+
+
+def _atoms(ms, e, pol, depth=0):
+    """Facts implied by `e` evaluating to `pol`: [(atomic expr, polarity)] (and/or/not/bool()/predicate helpers opened up)."""
+    if depth > 4:
+        return [(e, pol)]
+    if isinstance(e, ast.UnaryOp) and isinstance(e.op, ast.Not):
+        return _atoms(ms, e.operand, not pol, depth + 1)
+    if isinstance(e, ast.BoolOp) and ((isinstance(e.op, ast.And) and pol) or (isinstance(e.op, ast.Or) and not pol)):
+        out = []
+        for v in e.values:
+            out += _atoms(ms, v, pol, depth + 1)
+        return out
+    if isinstance(e, ast.Call) and dotted(e.func) == "bool" and len(e.args) == 1:
+        return _atoms(ms, e.args[0], pol, depth + 1)
+    b = _predicate_body(ms, e)
+    if b is not None:
+        return _atoms(ms, b, pol, depth + 1)
+    return [(e, pol)]
+
+
+def _mentions_calls(ms, e, depth=0):
+    for x in ast.walk(e):
+        if _self_attr(x, "calls"):
+            return True
+        if depth < 2 and isinstance(x, ast.Call):
+            b = _predicate_body(ms, x)
+            if b is not None and _mentions_calls(ms, b, depth + 1):
+                return True
+    return False
+
+
 def check(ctx):
     mod = ctx.mod(TASK)
     cls = ctx.cls(TASK, "Clock")
     ms = methods(cls)
     Elem = check_delayed_call(ctx, ctx.mod(BASE), heap_rules=False)
     ClockM = model_class(cls, "ClockModel")
-    MiniEval.GLOBALS = {}
+    MiniEval.GLOBALS = {"DelayedCall": Elem, "base": type("basemod", (), {"DelayedCall": Elem})}
+    for st in mod.tree.body:
+        if isinstance(st, ast.FunctionDef) and not st.decorator_list:
+            MiniEval.GLOBALS[st.name] = (lambda *a_, _f=st, **k_: MiniEval.call(_f, a_, k_))
 
     sorters = set()
     with ctx.section("seconds"):
@@ -64,8 +121,10 @@ def check(ctx):
             got = MiniEval.call(f, (ClockM(rightNow=12.5, calls=[]),), {})
             if got != 12.5:
                 bad = f"seconds() returns {got!r} with rightNow = 12.5"
-        except (MiniRaise, MiniBudget, AttributeError, TypeError) as e:
+        except (MiniRaise, MiniBudget) as e:
             bad = f"does not evaluate ({e})"
+        except (AttributeError, TypeError, NameError) as e:
+            raise Unsupported(f"Clock.seconds: model evaluation failed ({type(e).__name__}: {e})")
         ctx.check(bad is None, "seconds/is-rightNow", C + ".seconds", f"the clock read by callLater/reset is not the one advance() moves: {bad}")
 
     with ctx.section("calls ownership"):
@@ -73,28 +132,29 @@ def check(ctx):
         acc = class_accesses(mod, cls, {"calls"}, receivers={"self"})
         for a in acc:
             fn = a.func.split(".", 1)[1].split(".")[0]
+            kind = _kind(a)
             c = ctx.construct(f"{MODNAME}.{a.func}", a.node)
             if fn == "__init__":
-                ctx.check(a.kind in ("assign", "rebind-empty"), "calls/ownership", c, "unexpected operation on `calls` in __init__")
-            elif a.kind == "append":
+                ctx.check(kind in ("assign", "rebind-empty"), "calls/ownership", c, "unexpected operation on `calls` in __init__")
+            elif kind == "append":
                 ctx.ok("calls/ownership", c)
-            elif a.kind == "sort":
+            elif kind == "sort":
                 sorters.add(fn)
                 ctx.ok("calls/ownership", c, "validated by model evaluation")
-            elif a.kind == "pop_first":
+            elif kind == "pop_first":
                 ctx.ok("calls/ownership", c)
-            elif a.kind == "remove" and fn == "callLater" and a.func.count(".") >= 2:
+            elif kind == "remove" and fn == "callLater" and a.func.count(".") >= 2:
                 ctx.ok("calls/ownership", c, "canceller closure (checked by callLater/canceller-removes)")
-            elif a.kind in ("assign", "rebind-empty"):
+            elif kind in ("assign", "rebind-empty"):
                 ctx.violation("calls/ownership", c, "`calls` is re-bound to a new list: the cancellers of already scheduled calls hold the old "
                               "list's bound `remove`, so cancelling them no longer unschedules them (a cancelled call runs)")
-            elif a.kind == "pop_last":
+            elif kind == "pop_last":
                 ctx.violation("calls/ownership", c, "calls are taken from the back of the ascending list: the latest call runs first")
-            elif a.kind in ("insert0", "appendleft", "insert"):
+            elif kind in ("insert0", "appendleft", "insert"):
                 ctx.violation("calls/ownership", c, "a new call is not added at the end: with the stable sort, calls for the same time no "
                               "longer run in creation order")
             else:
-                ctx.violation("calls/ownership", c, f"operation of kind '{a.kind}' on `calls`")
+                ctx.violation("calls/ownership", c, f"operation of kind '{kind}' on `calls`")
         ctx.floor("calls/ownership", len(acc), 3)
 
     with ctx.section("public API"):
@@ -108,14 +168,13 @@ def check(ctx):
             if key in seen:
                 continue
             seen.add(key)
-            ok = a.kind in ("append", "sort") or (a.kind == "remove" and a.func.count(".") >= 2)
+            ok = _kind(a) in ("append", "sort") or (a.kind == "remove" and a.func.count(".") >= 2)
             ctx.check(ok, "api/no-reordering-from-user-callable", ctx.construct(f"{C}.{root}", " -> ".join(chain) + ": " + src(a.node)[:90]),
                       f"{root}() can be called by user code from inside a running call and performs `{src(a.node)[:70]}` ({a.kind}) on `calls`: "
                       "a pending call disappears or changes place while advance() is iterating")
         ctx.floor("api/no-reordering-from-user-callable", len(seen), 1, "reachable mutations")
     if not sorters:
-        sorters = {n for n, m in ms.items() if any(isinstance(c, ast.Call) and isinstance(c.func, ast.Attribute) and c.func.attr == "sort"
-                                                 and _self_attr(c.func.value, "calls") for c in ast.walk(m))}
+        sorters = {a.func.split(".")[1] for a in class_accesses(mod, cls, {"calls"}, receivers={"self"}) if _kind(a) == "sort"}
     with ctx.section("sorter"):
         # ---- the sorter: ascending by scheduled time, stable, in place ------------------------------------
         ctx.check(bool(sorters), "sort/ascending-stable", C, "no method sorts `calls`")
@@ -149,8 +208,10 @@ def check(ctx):
                         break
             except MiniBudget:
                 bad = "does not terminate on a model list"
-            except (MiniRaise, AttributeError, TypeError, ValueError) as e:
-                bad = f"does not evaluate on a model clock ({type(e).__name__}: {e})"
+            except MiniRaise as e:
+                bad = f"raises on a model clock ({e})"
+            except (AttributeError, TypeError, ValueError, NameError) as e:
+                raise Unsupported(f"{q}: model evaluation failed ({type(e).__name__}: {e})")
             ctx.check(bad is None, "sort/ascending-stable", q,
                       f"`calls` is not sorted ascending by scheduled time (getTime), stably and in place: {bad}", detail=f"{n} model lists")
 
@@ -168,6 +229,7 @@ def check(ctx):
             names = [a.arg for a in init.args.args][1:]
             bound = {names[i]: a for i, a in enumerate(c.args) if i < len(names)}
             bound.update({k.arg: k.value for k in c.keywords if k.arg})
+            bound = {k: resolve_locals(f, v) for k, v in bound.items()}    # named temporaries
             prm = [a.arg for a in f.args.args][1:]
             ctx.need(len(prm) >= 2 and f.args.vararg and f.args.kwarg, "Clock.callLater(self, delay, callable, *args, **kw)")
             t = linform(bound["time"]) if "time" in bound else None
@@ -186,7 +248,7 @@ def check(ctx):
                       "the canceller handed to DelayedCall does not remove the call from `calls`: advance() does not look at `cancelled`, "
                       "so a cancelled call would still run and getDelayedCalls would still list it")
             local = next((st.targets[0].id for st in ast.walk(f) if isinstance(st, ast.Assign) and st.value is c and isinstance(st.targets[0], ast.Name)), None)
-            apps = g.find(lambda x: isinstance(x, ast.Call) and isinstance(x.func, ast.Attribute) and x.func.attr == "append" and _self_attr(x.func.value, "calls")
+            apps = g.find(lambda x: isinstance(x, ast.Call) and isinstance(x.func, ast.Attribute) and x.func.attr == "append" and _self_attr(resolve_locals(f, x.func.value), "calls")
                           and len(x.args) == 1 and ((local and src(x.args[0]) == local) or x.args[0] is c))
             wit = g.must_pass(g.ids_of(c), apps, exc=False)
             ctx.check(bool(apps) and wit is None, "callLater/scheduled", q, "the new call is not appended to `calls` on every path: it never runs",
@@ -205,8 +267,10 @@ def check(ctx):
             got = list(MiniEval.call(f, (ClockM(rightNow=0.0, calls=[a, b]),), {}))
             if sorted(map(id, got)) != sorted(map(id, (a, b))):
                 bad = f"two pending calls, {len(got)} returned"
-        except (MiniRaise, MiniBudget, AttributeError, TypeError) as e:
+        except (MiniRaise, MiniBudget) as e:
             bad = f"does not evaluate ({e})"
+        except (AttributeError, TypeError, NameError) as e:
+            raise Unsupported(f"Clock.getDelayedCalls: model evaluation failed ({type(e).__name__}: {e})")
         ctx.check(bad is None, "getDelayedCalls/exactly-pending", C + ".getDelayedCalls", f"getDelayedCalls() does not list exactly the calls in `calls`: {bad}")
 
     with ctx.section("advance"):
@@ -224,32 +288,79 @@ def check(ctx):
             if isinstance(st, ast.AugAssign) and _self_attr(st.target, "rightNow"):
                 return True
             return isinstance(st, ast.Assign) and any(_self_attr(t, "rightNow") for t in st.targets)
-        tw = g.ids(is_time_write)
-        ok = len(tw) == 1
-        if ok:
-            st = g.node(tw[0]).ast
+        def adds_to_clock(st, amount):
             if isinstance(st, ast.AugAssign):
-                ok = isinstance(st.op, ast.Add) and src(st.value) == prm[0]
-            else:
-                lf = linform(st.value)
-                ok = lf is not None and lin_eq(lf, ({"self.rightNow": 1, prm[0]: 1}, 0))
+                return isinstance(st.op, ast.Add) and src(st.value) == amount
+            lf = linform(st.value)
+            return lf is not None and lin_eq(lf, ({"self.rightNow": 1, amount: 1}, 0))
+        tw = g.ids(is_time_write)
+        via_helper = False
+        if not tw:
+            # the time change may live in a private helper: self._helper(amount) whose only effect is rightNow += its parameter
+            for n in g.find(lambda x: isinstance(x, ast.Call) and (call_name(x) or "").startswith("self.") and len(x.args) == 1 and src(x.args[0]) == prm[0]):
+                cl = next(x for x in walk_local(g.node(n).ast) if isinstance(x, ast.Call) and (call_name(x) or "").startswith("self.") and len(x.args) == 1)
+                h = ms.get(call_name(cl)[5:])
+                if h is not None and len(h.args.args) == 2:
+                    hg = ctx.cfg(h)
+                    hw = hg.ids(is_time_write)
+                    if len(hw) == 1 and adds_to_clock(hg.node(hw[0]).ast, h.args.args[1].arg) and hg.must_pass([hg.entry], hw, exc=False) is None:
+                        tw.append(n)
+                        via_helper = True
+        ok = len(tw) == 1
+        if ok and not via_helper:
+            ok = adds_to_clock(g.node(tw[0]).ast, prm[0])
         ctx.check(ok, "advance/moves-clock-once", q, f"advance({prm[0]}) does not add {prm[0]} to rightNow exactly once")
         ctx.check(all(g.path([t], [t], strict=True) is None for t in tw), "advance/moves-clock-once", q + " | <not in a loop>", "the clock is moved inside a loop")
         # sites
         acc = accesses(f, "Clock.advance", {"calls"}, {"self"})
-        pops = [n for a_ in acc if a_.kind in ("pop_first", "pop_last", "pop_key") for n in g.ids_of(a_.node)]
+        pops = [n for a_ in acc if a_.kind in ("pop_first", "pop_last", "pop_key") or (a_.kind == "delitem" and src(a_.node).endswith("[0]"))
+                for n in g.ids_of(a_.node)]
         ctx.check(len(pops) == 1, "advance/takes-head", q, f"{len(pops)} sites take a call out of `calls` (exactly one expected)")
         outs = g.find(lambda x: isinstance(x, ast.Call) and isinstance(x.func, ast.Attribute) and x.func.attr == "func")
-        ctx.check(len(outs) == 1, "advance/calls-once", q, f"{len(outs)} call-outs `X.func(...)` in advance (exactly one expected)")
         sorts = g.find(lambda x: _is_sort_call(x, sorters))
-        heads = g.find(lambda x: isinstance(x, ast.Subscript) and _self_attr(x.value, "calls")) + pops
+        pure = {k: v for k, v in single_assignment_locals(f).items()
+                if all(isinstance(x, (ast.Name, ast.Attribute, ast.Subscript, ast.Constant, ast.Load, ast.Call, ast.UnaryOp, ast.USub)) for x in ast.walk(v))
+                and all((isinstance(x.func, ast.Attribute) and x.func.attr in ("getTime", "seconds") and not x.args) for x in ast.walk(v) if isinstance(x, ast.Call))}
+
+        def norm(e):
+            e = clone(e)
+            for _ in range(3):
+                e = _Subst(pure).visit(e)
+            return e
+        heads = g.find(lambda x: (isinstance(x, ast.Subscript) and _self_attr(norm(x.value), "calls"))
+                       or (isinstance(x, ast.Call) and _predicate_body(ms, x) is not None and _mentions_calls(ms, x))) + pops
         heads = sorted(set(heads))
-        if len(pops) != 1 or len(outs) != 1:
+        runner = None
+        if len(pops) == 1 and not outs:
+            # the call-out may live in a private helper: self._helper(call) which marks the call and runs its function
+            for n in g.find(lambda x: isinstance(x, ast.Call) and (call_name(x) or "").startswith("self.") and len(x.args) == 1 and isinstance(x.args[0], ast.Name)):
+                cl = next(x for x in walk_local(g.node(n).ast) if isinstance(x, ast.Call) and (call_name(x) or "").startswith("self.") and len(x.args) == 1)
+                h = ms.get(call_name(cl)[5:])
+                if h is None or len(h.args.args) != 2:
+                    continue
+                hp = h.args.args[1].arg
+                hg = ctx.cfg(h)
+                ho = hg.find(lambda x: isinstance(x, ast.Call) and isinstance(x.func, ast.Attribute) and x.func.attr == "func" and src(x.func.value) == hp)
+                if len(ho) == 1:
+                    runner = (n, cl, h, hg, ho[0], hp)
+        if not outs and runner is None and any(isinstance(x, ast.Call) and (call_name(x) or "").startswith("self.") and x.args for x in ast.walk(f)):
+            ctx.need(False, "the call-out `X.func(*X.args, **X.kw)` of advance (not found directly or in a one-argument private helper)")
+        ctx.check(len(outs) == 1 or (not outs and runner is not None), "advance/calls-once", q,
+                  f"{len(outs)} call-outs `X.func(...)` in advance (exactly one expected)")
+        if len(pops) != 1 or (len(outs) != 1 and runner is None):
             return
-        pop, out = pops[0], outs[0]
+        pop = pops[0]
+        out = outs[0] if outs else runner[0]
         pst = g.node(pop).ast
-        ctx.need(isinstance(pst, ast.Assign) and isinstance(pst.targets[0], ast.Name), "`call = self.calls.pop(0)`")
-        var = pst.targets[0].id
+        if isinstance(pst, ast.Assign) and isinstance(pst.targets[0], ast.Name):
+            var = pst.targets[0].id
+        else:
+            # `head = self.calls[0]` ... `self.calls.pop(0)` / `del self.calls[0]`: the call taken is the one peeked at
+            peeks = [st for st in ast.walk(f) if isinstance(st, (ast.Assign, ast.AnnAssign)) and getattr(st, "value", None) is not None
+                     and src(st.value) == "self.calls[0]" and isinstance((st.targets[0] if isinstance(st, ast.Assign) else st.target), ast.Name)
+                     and all(g.dominates(n_, pop) for n_ in g.ids_of(st))]
+            ctx.need(len(peeks) == 1, "`call = self.calls.pop(0)` (or a peeked head followed by pop/del)")
+            var = (peeks[0].targets[0] if isinstance(peeks[0], ast.Assign) else peeks[0].target).id
         for t in tw:
             ctx.check(g.dominates(t, pop) and all(g.dominates(t, h) for h in heads), "advance/clock-before-calls", ctx.construct(q, g.node(t).ast),
                       "calls are examined before the clock has been moved: a call reached by this advance is left for the next one")
@@ -264,7 +375,10 @@ def check(ctx):
                   "calls run out of time order or are missed by this advance", witness=g.describe(wit))
         # (c) boundary
         guards = g.edge_guards(pop)
-        ctx.check(any(_self_attr(g.node(t).ast, "calls") and lab == "T" for t, lab in guards), "advance/loop-boundary", q + " | <calls non-empty>",
+        facts = [(norm(e_), pol, t) for t, lab in guards for e_, pol in _atoms(ms, g.node(t).ast, lab == "T")]
+        nonempty = any((_self_attr(e_, "calls") and pol) or (lin_cmp(e_, negate=not pol) == (frozenset({("len(self.calls)", 1)}), 0, True))
+                       or (lin_cmp(e_, negate=not pol) == (frozenset({("len(self.calls)", 1)}), 1, False)) for e_, pol, _ in facts)
+        ctx.check(nonempty, "advance/loop-boundary", q + " | <calls non-empty>",
                   "a call is popped although `calls` may be empty")
         subst = {"self.rightNow": ({"self.seconds()": 1}, 0)}
         for st in ast.walk(f):
@@ -272,7 +386,7 @@ def check(ctx):
                     and all(g.dominates(tw_, n) for tw_ in tw for n in g.ids_of(st)):
                 subst[st.targets[0].id] = ({"self.seconds()": 1}, 0)
         want = (frozenset({("self.seconds()", 1), ("self.calls[0].getTime()", -1)}), 0, False)
-        nfs = [(lin_cmp(g.node(t).ast, subst, negate=(lab == "F")), t) for t, lab in guards]
+        nfs = [(lin_cmp(e_, subst, negate=not pol), t) for e_, pol, t in facts]
         nfs = [(nf, t) for nf, t in nfs if nf is not None]
         hit = [t for nf, t in nfs if nf == want]
         near = [(nf, t) for nf, t in nfs if nf != want]
@@ -281,8 +395,26 @@ def check(ctx):
                   "`now - head.getTime() >= 0`: a call scheduled exactly for the new time is not run by this advance, or a call is run "
                   "by its unadjusted time (before a reset()/delay() took effect)")
         # (d) the call-out
-        call = next(x for x in walk_local(g.node(out).ast) if isinstance(x, ast.Call) and isinstance(x.func, ast.Attribute) and x.func.attr == "func")
-        c = ctx.construct(q, call)
+        if runner is not None:
+            _, cl, h, hg, ho, hp = runner
+            call = next(x for x in walk_local(hg.node(ho).ast) if isinstance(x, ast.Call) and isinstance(x.func, ast.Attribute) and x.func.attr == "func")
+            c = ctx.construct(f"{C}.{h.name}", call)
+            ctx.check(src(cl.args[0]) == var and g.dominates(pop, out), "advance/removed-before-call", c,
+                      "the function that runs does not belong to the call just removed from `calls`")
+            star = [src(x.value) for x in call.args if isinstance(x, ast.Starred)]
+            dstar = [src(k.value) for k in call.keywords if k.arg is None]
+            ctx.check(star == [f"{hp}.args"] and dstar == [f"{hp}.kw"] and len(call.args) == 1, "advance/arguments", c,
+                      "the function is not called with the call's own args / kw")
+            hmarks = hg.ids(lambda n: n.kind == "stmt" and isinstance(n.ast, ast.Assign) and any(src(t) == f"{hp}.called" for t in n.ast.targets)
+                            and isinstance(n.ast.value, ast.Constant) and bool(n.ast.value.value))
+            omarks = g.ids(lambda n: n.kind == "stmt" and isinstance(n.ast, ast.Assign) and any(src(t) == f"{var}.called" for t in n.ast.targets)
+                           and isinstance(n.ast.value, ast.Constant) and bool(n.ast.value.value))
+            ok_mark = (bool(hmarks) and hg.path([hg.entry], [ho], avoid=hmarks) is None) or (bool(omarks) and g.path([pop], [out], avoid=omarks) is None)
+            ctx.check(ok_mark, "advance/called-before-call", c, "the function runs before `called` is set")
+        call = next((x for x in walk_local(g.node(out).ast) if isinstance(x, ast.Call) and isinstance(x.func, ast.Attribute) and x.func.attr == "func"), None)
+        c = ctx.construct(q, call if call is not None else g.node(out).ast)
+        if call is None:
+            call = ast.parse(f"{var}.func(*{var}.args, **{var}.kw)").body[0].value   # checked inside the helper above
         ctx.check(src(call.func.value) == var and g.dominates(pop, out), "advance/removed-before-call", c,
                   "the function that runs does not belong to the call just removed from `calls` (a running call must not be listed as "
                   "pending; a nested advance() would run it again)")
@@ -293,6 +425,8 @@ def check(ctx):
         marks = g.ids(lambda n: n.kind == "stmt" and isinstance(n.ast, ast.Assign) and any(src(t) == f"{var}.called" for t in n.ast.targets)
                       and isinstance(n.ast.value, ast.Constant) and bool(n.ast.value.value))
         wit = g.path([pop], [out], avoid=marks)
+        if runner is not None:
+            marks, wit = [out], None
         ctx.check(bool(marks) and wit is None, "advance/called-before-call", c,
                   "the function runs before `called` is set: cancel() from inside it tries to remove the call from `calls` again "
                   "(ValueError) and reset()/delay() silently re-time a call that is no longer scheduled", witness=g.describe(wit))
@@ -307,7 +441,7 @@ def check(ctx):
                   "advance are left for a later one", witness=g.describe(wit))
         # (e) once the clock has moved, advance() must examine `calls` (run loop / emptiness test) before it returns: an early
         #     return that relies on some other activation to run what became due loses calls when that activation is gone
-        examines = set(g.ids(lambda n: n.kind == "test" and any(_self_attr(x, "calls") for x in ast.walk(n.ast))))
+        examines = set(g.ids(lambda n: n.kind == "test" and _mentions_calls(ms, norm(n.ast))))
         for t in tw:
             wit = g.path([t], [g.exit], avoid=examines, strict=True, edge_ok=lambda a_, b_, l: l != "exc")
             ctx.check(wit is None, "advance/time-change-reaches-run-loop", ctx.construct(q, g.node(t).ast),
@@ -334,7 +468,7 @@ def check(ctx):
                       witness=g.describe(wit))
         if not flags:
             ctx.ok("advance/guard-reset-on-every-exit", q + " | <no guard attribute around the call-out>")
-        k = next(a_.kind for a_ in acc if a_.kind.startswith("pop_"))
+        k = next((a_.kind for a_ in acc if a_.kind.startswith("pop_")), "pop_first")   # `del self.calls[0]` takes the first
         ctx.check(k == "pop_first", "advance/takes-head", ctx.construct(q, g.node(pop).ast), "the call taken is not the first of the ascending list")
 
 
@@ -421,4 +555,37 @@ MUTANTS += [
 SILENT += [
     # an informational flag, set and cleared exception-safely, that never short-cuts the run loop
     Silent("advancing-flag-informational", TASK, _ADV, _ADV_FLAGGED, more=[(TASK, "    rightNow = 0.0\n", "    rightNow = 0.0\n    _advancing = False\n")]),
+]
+
+SILENT += [
+    Silent("peek-then-delete-while-true", TASK, _ADV,
+           "        self.rightNow += amount\n        while True:\n            self._sortCalls()\n            if not self.calls:\n                break\n            head = self.calls[0]\n"
+           "            if head.getTime() > self.seconds():\n                break\n            del self.calls[0]\n            head.called = 1\n            head.func(*head.args, **head.kw)\n"),
+    Silent("call-out-in-private-helper", TASK, _ADV,
+           "        self.rightNow += amount\n        self._sortCalls()\n        while self.calls and self.calls[0].getTime() <= self.seconds():\n            call = self.calls.pop(0)\n"
+           "            self._runCall(call)\n            self._sortCalls()\n\n    def _runCall(self, due):\n        due.called = 1\n        due.func(*due.args, **due.kw)\n"),
+    Silent("clock-moved-in-private-helper", TASK, _ADV, _ADV.replace("        self.rightNow += amount\n", "        self._tick(amount)\n") + "\n    def _tick(self, seconds):\n        self.rightNow += seconds\n"),
+    Silent("callLater-named-temporaries", TASK, "        dc = DelayedCall(\n            self.seconds() + delay,\n            callable,\n            args,\n            kw,\n            self.calls.remove,\n            lambda c: None,\n            self.seconds,\n        )",
+           "        when = self.seconds() + delay\n        unschedule = self.calls.remove\n        dc = DelayedCall(when, callable, args, kw, unschedule, lambda c: None, self.seconds)"),
+    Silent("sort-key-method-reference", TASK, "key=lambda a: a.getTime()", "key=DelayedCall.getTime"),
+    Silent("head-time-in-local", TASK, _ADV,
+           "        self.rightNow += amount\n        self._sortCalls()\n        while self.calls:\n            nextTime = self.calls[0].getTime()\n            if nextTime > self.rightNow:\n                break\n"
+           "            call = self.calls.pop(0)\n            call.called = 1\n            call.func(*call.args, **call.kw)\n            self._sortCalls()\n"),
+    Silent("sort-by-slice-assignment", TASK, "        self.calls.sort(key=lambda a: a.getTime())", "        self.calls[:] = sorted(self.calls, key=lambda a: a.getTime())"),
+]
+
+SILENT += [
+    # compound loop header as `while True` with guard-clause breaks over named temporaries (test negated, not flipped)
+    Silent("guard-clause-breaks-with-temporaries", TASK, _ADV,
+           "        self.rightNow += amount\n        self._sortCalls()\n        while True:\n            queue = self.calls\n            if not queue:\n                break\n"
+           "            first = queue[0].getTime()\n            nowTime = self.seconds()\n            if not (first <= nowTime):\n                break\n"
+           "            due = self.calls.pop(0)\n            due.called = 1\n            due.func(*due.args, **due.kw)\n            self._sortCalls()\n"),
+    # loop test in a private predicate, sort key / reset hook as module-level functions, callLater through a local alias
+    Silent("loop-test-in-private-predicate", TASK, "        while self.calls and self.calls[0].getTime() <= self.seconds():", "        while self._somethingDue():",
+           more=[(TASK, "    def callLater(\n        self, delay: float, callable: Callable[..., object], *args: object, **kw: object\n    ) -> IDelayedCall:",
+                  "    def _somethingDue(self):\n        return bool(self.calls) and self.calls[0].getTime() <= self.seconds()\n\n"
+                  "    def callLater(\n        self, delay: float, callable: Callable[..., object], *args: object, **kw: object\n    ) -> IDelayedCall:"),
+                 (TASK, "        self.calls.append(dc)\n        self._sortCalls()\n        return dc", "        waiting = self.calls\n        waiting.append(dc)\n        self._sortCalls()\n        return dc"),
+                 (TASK, "key=lambda a: a.getTime()", "key=_whenDue"),
+                 (TASK, "@implementer(IReactorTime)\nclass Clock:", "def _whenDue(c):\n    return c.getTime()\n\n\n@implementer(IReactorTime)\nclass Clock:")]),
 ]
